@@ -139,7 +139,7 @@ def _lineprog(o, d):
 
 
 def _attribute(o, d):
-    return (type(o).__name__, canon(o._tag, d), canon(getattr(o, 'value', None), d), canon(o.extra, d))
+    return (type(o).__name__, canon(o.tag, d), canon(getattr(o, 'value', None), d), canon(o.extra, d))
 
 
 def _attrsub(o, d):
